@@ -37,6 +37,23 @@ func runC18(c *Ctx) {
 			finished = ci
 		}
 	}
+	// refusals built in a helper of the handler (s.refuse(reason, err)): the helper's call sites stand for them
+	if len(refuses) == 0 {
+		for _, g := range closureFuncs(fn, 2) {
+			if g == fn {
+				continue
+			}
+			for _, ci := range allCalls(g) {
+				if calleeName(ci.Common()) == "protocol/handshake.NewMsgRefuse" {
+					for _, at := range liftToCaller(fn, ci, 2) {
+						if cj, ok := at.(ssa.CallInstruction); ok {
+							refuses = append(refuses, cj)
+						}
+					}
+				}
+			}
+		}
+	}
 	if accept == nil || finished == nil || queryReply == nil || len(refuses) == 0 {
 		c.Undecided("handleProposeVersions: accept/finished/refuse/query-reply anchors missing")
 	}
@@ -54,34 +71,49 @@ func runC18(c *Ctx) {
 			}
 		}
 	}
-	c.Check(appendCand != nil, "candidate-offered-by-both", key, fn.Pos(), "a proposed version becomes a candidate only if the responder's map contains it", "the candidate set is not built under a successful lookup of the proposed version in the responder's own version map")
-	// (2) max selection
+	// (2) max selection: the running value is replaced by a candidate exactly on "candidate > running"
 	okMax := false
+	fusedUnderLookup := false
 	if phi, ok := selected.(*ssa.Phi); ok {
-		for _, ef := range edgeFacts(fn) {
-			if !strings.Contains(ef.Fact, " > ") {
+		for _, b := range fn.Blocks {
+			iff, isIf := b.Instrs[len(b.Instrs)-1].(*ssa.If)
+			if !isIf {
 				continue
 			}
-			// find the If's BinOp
-			iff := ef.From.Instrs[len(ef.From.Instrs)-1].(*ssa.If)
 			bo, ok := iff.Cond.(*ssa.BinOp)
-			if !ok || bo.Op.String() != ">" {
+			if !ok {
 				continue
 			}
-			// X = element of candidate slice, Y = running value (phi family of selected)
-			if samePhiFamily(bo.Y, phi) || bo.Y == phi {
-				// on the true edge the running value becomes X
-				tb := ef.From.Succs[0]
-				for _, p2 := range phiFamily(phi) {
-					for i, e := range p2.Edges {
-						if e == bo.X && (p2.Block().Preds[i] == tb || p2.Block().Preds[i] == ef.From) {
-							okMax = true
+			// cand > running (true edge), or running < cand (true edge)
+			var cand, running ssa.Value
+			switch bo.Op.String() {
+			case ">":
+				cand, running = bo.X, bo.Y
+			case "<":
+				cand, running = bo.Y, bo.X
+			default:
+				continue
+			}
+			if !(samePhiFamily(running, phi) || running == ssa.Value(phi)) {
+				continue
+			}
+			tb := b.Succs[0]
+			for _, p2 := range phiFamily(phi) {
+				for i, e := range p2.Edges {
+					if e == cand && (p2.Block().Preds[i] == tb || p2.Block().Preds[i] == b) {
+						okMax = true
+						// fused form: the candidate is a proposed version and the comparison itself happens only
+						// after that version was found in the responder's own map
+						want := "T:lookup(p0.config.ProtocolVersionMap," + desc(cand) + ")#1"
+						if v := c.mustPass(fn, []ssa.Instruction{iff}, func(f string) bool { return f == want }); v[0].OK && strings.Contains(desc(cand), ".VersionMap") {
+							fusedUnderLookup = true
 						}
 					}
 				}
 			}
 		}
 	}
+	c.Check(appendCand != nil || fusedUnderLookup, "candidate-offered-by-both", key, fn.Pos(), "a proposed version becomes a candidate only if the responder's map contains it", "the candidate set is not built under a successful lookup of the proposed version in the responder's own version map")
 	c.Check(okMax, "select-highest", key, accept.Pos(), "the selected version is replaced exactly when a candidate is greater than the current one (running maximum)", "the selected version is not the maximum of the common versions")
 	// (3) guards
 	guard := func(rule, okm, bad string, m func(string) bool) {
@@ -135,23 +167,51 @@ func runC18(c *Ctx) {
 	c.Check(okDec, "accept-decoded", key+":decoder", fn.Pos(), "decoder looked up for the selected version", "the decoder used is not GetProtocolVersion(selected version)")
 	// (4) refusal list sorted, from the responder's map
 	var sortCall ssa.CallInstruction
-	for _, ci := range allCalls(fn) {
-		if calleeName(ci.Common()) == "slices.Sort" {
-			sortCall = ci
+	sortFn := fn
+	for _, g := range closureFuncs(fn, 2) {
+		for _, ci := range allCalls(g) {
+			if strings.HasPrefix(calleeName(ci.Common()), "slices.Sort") {
+				sortCall, sortFn = ci, g
+			}
 		}
 	}
 	okSort := false
 	if sortCall != nil {
-		for _, r := range refuses {
-			if precedes(sortCall.(ssa.Instruction), r.(ssa.Instruction)) && r.Block() == sortCall.Block() {
-				okSort = true
+		if sortFn == fn {
+			for _, r := range refuses {
+				if precedes(sortCall.(ssa.Instruction), r.(ssa.Instruction)) && r.Block() == sortCall.Block() {
+					okSort = true
+				}
 			}
+		} else {
+			// a helper that returns the sorted list: the sort precedes its return, and a refusal takes its result
+			for _, hb := range sortFn.Blocks {
+				if hr, ok := hb.Instrs[len(hb.Instrs)-1].(*ssa.Return); ok && precedes(sortCall.(ssa.Instruction), hr) && !inLoop(sortCall.Block()) {
+					okSort = true
+				}
+			}
+			used := false
+			for _, ci := range allCalls(fn) {
+				if ci.Common().StaticCallee() == sortFn && ci.Value() != nil {
+					for _, r := range refuses {
+						if strings.Contains(trace(r.Common().Args[len(r.Common().Args)-2]), sortFn.Name()+"(") || strings.Contains(desc(r.(ssa.Instruction).(ssa.Value)), sortFn.Name()+"(") {
+							used = true
+						}
+					}
+					for _, in := range fnInstrs(fn) {
+						if st, ok := in.(*ssa.Store); ok && strings.Contains(desc(st.Val), sortFn.Name()+"(") {
+							used = true
+						}
+					}
+				}
+			}
+			okSort = okSort && used
 		}
 		src := desc(sortCall.Common().Args[0])
 		okSort = okSort && strings.Contains(src, "append(")
 	}
 	okKeys := false
-	for _, ef := range edgeFacts(fn) {
+	for _, ef := range edgeFacts(sortFn) {
 		if ef.Fact == "T:next(range(p0.config.ProtocolVersionMap))#0" {
 			okKeys = true
 		}
